@@ -16,7 +16,7 @@ PROP = "C15"
 def copies(mutate=None):
     mutate = mutate or {}
     T = load("aiohomekit.protocol.tlv", src_transform=mutate.get("aiohomekit.protocol.tlv"))
-    T.TLV.to_string = staticmethod(lambda d: "")  # eager debug formatting is not the subject
+    common.keep_tlv_to_string(T)
     return T
 
 
@@ -191,7 +191,7 @@ CANARIES = [
 ASSUMPTIONS = [
     "CPython semantics of the bytearray/bytes operations the rope proxies mirror (validated by the model-based differential against the real library on sampled paths, not proved)",
     "item contents are opaque arrays: a proved equality holds for every content; types are symbolic 0..255",
-    "TLV.to_string (debug formatting) is replaced by an empty body in the module copy",
+    "TLV.to_string (eager debug formatting inside decode/encode) runs as real code; its two name tables return a placeholder for a symbolic key and formatted strings containing symbolic values are not inspected",
     "inputs longer than the stated bound and item lists longer than the stated skeletons are outside the claim",
 ]
 
@@ -207,7 +207,7 @@ def main(tier, seed, only=None):
                     "value-length soundness for every byte string up to the bound; encode_list == reference TLV8 encoder, "
                     "decode(encode(x)) == x and decode(ref_encode(x)) == x for symbolic types and opaque contents at boundary "
                     "lengths; expected-types filter against a reference scan.",
-        assumptions=ASSUMPTIONS, stubs=["TLV.to_string -> ''", "logger -> no-op"],
+        assumptions=ASSUMPTIONS, stubs=["K_TLV_TYPE_NAMES/K_TLV_ERROR_NAMES -> placeholder for symbolic keys (formatting only; TLV.to_string itself runs)", "logger -> no-op"],
         bounds={"tier": tier}, canaries=can, design_ref="DESIGN.md section 5, C15")
 
 
